@@ -183,13 +183,25 @@ def translate_restrict():
             or src[2] != 'ix = ix[np.unique(t[:self.t.shape[0]])]':
         raise TranslateError('restrict: head: ' + repr(src[:3]))
     ifs = [s for s in rs if isinstance(s, ast.If)]
-    sub = [s for s in ifs if t2.src(s.test) == 'not skip_subdomains and self.subdomains is not None']
-    bnd = [s for s in ifs if t2.src(s.test) == 'not skip_boundaries and self.boundaries is not None']
-    sub, bnd = t2.only(sub, 'restrict: subdomain branch'), t2.only(bnd, 'restrict: boundary branch')
-    if [t2.src(s) for s in sub.body] != RESTRICT_SUB or sub.orelse:
-        raise TranslateError('restrict: subdomain retagging: ' + repr([t2.src(s) for s in sub.body]))
-    if [t2.src(s) for s in bnd.body] != RESTRICT_BND or bnd.orelse:
-        raise TranslateError('restrict: boundary retagging: ' + repr([t2.src(s) for s in bnd.body]))
+    # the two retagging blocks are identified by their BODY; their guards and the initial values are translated
+    sub = [s for s in ifs if [t2.src(x) for x in s.body] == RESTRICT_SUB and not s.orelse]
+    bnd = [s for s in ifs if [t2.src(x) for x in s.body] == RESTRICT_BND and not s.orelse]
+    if len(sub) != 1:
+        raise TranslateError('restrict: subdomain retagging: ' + repr([[t2.src(x) for x in s.body] for s in ifs]))
+    if len(bnd) != 1:
+        raise TranslateError('restrict: boundary retagging: ' + repr([[t2.src(x) for x in s.body] for s in ifs]))
+    sub, bnd = sub[0], bnd[0]
+    guards = {}
+    for blk, kind, var in ((sub, 'subdomains', 'new_subdomains'), (bnd, 'boundaries', 'new_boundaries')):
+        tests = {f'not skip_subdomains and self.{kind} is not None': 'skip_subdomains',
+                 f'not skip_boundaries and self.{kind} is not None': 'skip_boundaries'}
+        if t2.src(blk.test) not in tests:
+            raise TranslateError(f'restrict: guard of the {kind} block: ' + t2.src(blk.test))
+        guards[kind] = tests[t2.src(blk.test)]
+        # the value handed over when the block is skipped
+        prev = rs[rs.index(blk) - 1]
+        if t2.src(prev) != f'{var} = None':
+            raise TranslateError(f'restrict: initial value of {var}: ' + t2.src(prev))
     rep = [s for s in rs if isinstance(s, ast.Assign) and t2.src(s.targets[0]) == 'out']
     rep = t2.only(rep, 'restrict: out = replace(...)')
     if t2.src(rep.value) != ('replace(self, doflocs=p, t=t, _boundaries=new_boundaries, '
@@ -226,8 +238,11 @@ Definition gen_restrict_boundary (nf : nat) (t2f : mat nat) (elements b : list n
   let newf := scatter facets (map Z.of_nat (seq 0 (length facets))) newf in
   let v := map (fun f => nth f newf (- 1)%Z) b in                                         (* newf[self.boundaries[k]] *)
   filter (fun x => (0 <=? x)%Z) v.                                                        (* v[v >= 0] *)
+(* Mesh.restrict, options: a kind of tags is retagged iff it is present and its guard does not skip it; otherwise None *)
+Definition gen_restrict_keeps_subdomains (skip_boundaries skip_subdomains : bool) : bool := negb @@GS@@.
+Definition gen_restrict_keeps_boundaries (skip_boundaries skip_subdomains : bool) : bool := negb @@GB@@.
 (* Mesh.remove_elements *)
-Definition gen_remove_kept (nt : nat) (elements : list nat) : list nat := setdiff_range nt elements.'''
+Definition gen_remove_kept (nt : nat) (elements : list nat) : list nat := setdiff_range nt elements.'''.replace('@@GS@@', guards['subdomains']).replace('@@GB@@', guards['boundaries'])
 
 
 DEDUPE = ['tmp = np.ascontiguousarray(p.T)',
